@@ -236,3 +236,41 @@ fn c10_as_pos_usize_bigint() {
     kani::cover!(v > usize::MAX as i128);
     core::mem::forget(n);
 }
+
+fn chars_like_bytes(b: &[u8]) {
+    let (s, e) = (any_opt_pos(), any_opt_pos());
+    let got = skip_take_chars(s..e, b);
+    let want = skip_take(s..e, b.len());
+    assert!(got == want);
+    kani::cover!(s.is_some() && !s.unwrap().0 && got.1 > 0);
+    kani::cover!(e.is_some() && !e.unwrap().0 && got.1 > 0);
+}
+
+//@ tier: quick
+//@ funcs: skip_take_chars, bstr::ByteSlice::char_indices, skip_take
+//@ bounds: text strings of length 0..=2 (lengths case-split; length 3 in the thorough harness c10_skip_take_chars_ascii_and_invalid_3) over the alphabet ASCII u {0xFF} -- every byte is exactly one character there (0xFF is an invalid byte, read as one replacement character covering ONE source byte); both bounds absent or any PosUsize
+//@ assume: bytes restricted to ASCII or 0xFF (multi-byte characters are outside this harness)
+//@ asserts: on such strings character positions are byte positions: skip_take_chars agrees with skip_take (itself shown equal to the position model), for negative and non-negative spellings alike -- an invalid byte counts as one character of one byte from either end
+#[kani::proof]
+#[kani::unwind(8)]
+fn c10_skip_take_chars_ascii_and_invalid() {
+    let b: [u8; 3] = kani::any();
+    kani::assume((b[0] < 0x80 || b[0] == 0xFF) && (b[1] < 0x80 || b[1] == 0xFF) && (b[2] < 0x80 || b[2] == 0xFF));
+    chars_like_bytes(&b[..0]);
+    chars_like_bytes(&b[..1]);
+    chars_like_bytes(&b[..2]);
+}
+
+//@ tier: thorough
+//@ timeout: 2400
+//@ funcs: skip_take_chars, bstr::ByteSlice::char_indices, skip_take
+//@ bounds: text strings of length 3 over the alphabet ASCII u {0xFF} -- every byte is exactly one character there (0xFF is an invalid byte, read as one replacement character covering ONE source byte); both bounds absent or any PosUsize
+//@ assume: bytes restricted to ASCII or 0xFF (multi-byte characters are outside this harness)
+//@ asserts: on such strings character positions are byte positions: skip_take_chars agrees with skip_take (itself shown equal to the position model), for negative and non-negative spellings alike -- an invalid byte counts as one character of one byte from either end
+#[kani::proof]
+#[kani::unwind(8)]
+fn c10_skip_take_chars_ascii_and_invalid_3() {
+    let b: [u8; 3] = kani::any();
+    kani::assume((b[0] < 0x80 || b[0] == 0xFF) && (b[1] < 0x80 || b[1] == 0xFF) && (b[2] < 0x80 || b[2] == 0xFF));
+    chars_like_bytes(&b[..3]);
+}
